@@ -83,7 +83,7 @@ CLAIMED.update({
         "argument counts derived from a callee's spelling; every fact guarded by 'is a node of a parsed tree', so the all-zero sentinel nodes of astcast and hand-built nodes are excluded; "
         "validated against 7 643 real files in the thorough tier) and theory regex-syntax-valid (arity of the regexp parser's operations). About 3900 of about 4110 obligations are proved on the "
         "unchanged tree and recorded in ledger/C01.proved; the check fails when one of them no longer discharges or is replaced by an undischarged one, and when the solvers "
-        "REFUTE (model, not timeout) a new safety obligation of a function that has no undecided obligation on the unchanged tree (a new or an entirely proved function). The remaining obligations (listed in the "
+        "REFUTE (model, not timeout) a new safety obligation of a function that the ledger knows and had entirely proved (new functions - extracted helpers - are verified without their callers' context and are not reported). The remaining obligations (listed in the "
         "evidence as undecided_not_claimed) are NOT claimed - an undecided obligation is a place nobody has looked at, two genuine crashes were found exactly there by sub-agents. The sweep relies on "
         "the contracts of other properties at call sites; the postconditions, loop invariants and call-site clauses of those contracts are therefore obligations of this check as well (about 500). "
         "Termination of recursion: every function on a cycle of the static call graph (16 functions) carries a `decreases` measure - astDepth of a syntax node, typeDepth of a type literal "
@@ -163,7 +163,7 @@ CLAIMED.update({
         "as a format and producing '%!d(MISSING)' artefacts); every formatted node argument is non-nil; an explicit position handed to WarnWithPos / WarnFixableWithPos "
         "is the result of a Pos() method, a token.Pos field of a go/ast node, or a record field / parameter all of whose sources are such values - arithmetic on positions is rejected (decided on the SSA). Plus contracts: the rule-engine reports are forwarded with position and fix unchanged; "
         "the comment-formatting fix covers exactly the comment with a non-inverted range; asDiag forwards position and edit (C08). 334 of 358 obligations proved and recorded in ledger/C07.proved (24 undecided, not claimed); "
-        "new or changed call sites must discharge. Not covered: positions and ranges computed inside the rule engine; that Pos() of a tree node is a token start (theory ast-valid).",
+        "a new obligation is reported when the solvers refute it in a function the ledger had entirely proved (the constant-format claim: wherever it is refuted). Not covered: positions and ranges computed inside the rule engine; that Pos() of a tree node is a token start (theory ast-valid).",
    design="§7 C07", technique="contract-based deductive verification, Warn-site sweep (call-site obligations; SMT + syntactic decisions on constant formats)"),
 })
 
